@@ -457,11 +457,16 @@ def _exact_float(ctx, rule):
     return _c01.r9_exact_float_discipline(ctx, rule)
 
 
+def _loader_bundle():
+    from . import c07 as _c07
+    return _c07.guesser_loads_faithfully('C02.L')
+
+
 def rules(tier):
     return [('C02.R1', lambda c, r: r1_adoption_kernel(c, r)), ('C02.R2', r2_predecessor), ('C02.R3', r3_coparent_prob),
             ('C02.R4', r4_copy_before_mutate), ('C02.R5', r5_all_children_pushed), ('C02.R6', r6_seeding),
             ('C02.R7', c01.r3b_prob_pure), ('C02.R8', c01.r4_prob_pt_coupling), ('C02.R9', c01.r5_successor), ('C02.R10', _mask_insertion),
-            ('C02.R11', _exact_float)]
+            ('C02.R11', _exact_float)] + _loader_bundle() + []
 
 
 META = {
